@@ -21,17 +21,21 @@
     Conventions as in Model/ManageGlue.v.  Audit strings ([paudit]) are the values parseString returns
     (strings.TrimSpace applied). *)
 From Coq Require Import List ZArith NArith Bool.
-From HK Require Import Gen.Consts Model.Queue Model.QueueHash Model.QueueMon Model.Headers Model.Publish Model.ManageGlue.
+From HK Require Import Gen.Consts Gen.AdminProxy Model.Queue Model.QueueHash Model.QueueMon Model.Headers Model.Publish Model.ManageGlue.
 Import ListNotations.
 Open Scope Z_scope.
 
 (** ** callAdminJSON: the retry policy as the code has it *)
-(** adminProxyRetryMaxGET; [maxAttempts := 1] for every other method.  (The harness exports the Go constant and the
-    check compares it with this definition; the per-method attempt counts are observed on every faulted call.) *)
-Definition proxy_retry_max_get : nat := 3.
-Definition proxy_attempts_other : nat := 1.
+(** The numbers are read from the source on every run (translate/adminproxy.go -> Gen/AdminProxy.v): [maxAttempts := 1],
+    raised to adminProxyRetryMaxGET only under [strings.EqualFold(method, http.MethodGet)]; the statuses of
+    shouldRetryAdminProxyCall's switch.  The same file records that callAdminJSON has the shape this model assumes: one
+    client.Do inside [for attempt := 1; attempt <= maxAttempts; attempt++], every [continue] directly under
+    shouldRetryAdminProxyCall(attempt, maxAttempts, ..), which starts with [if attempt >= maxAttempts { return false }]
+    ([ap_shape_ok]; Properties/C14proxy.v C14proxy_source_shape). *)
+Definition proxy_retry_max_get : nat := Z.to_nat ap_attempts_get.
+Definition proxy_attempts_other : nat := Z.to_nat ap_attempts_default.
 (** shouldRetryAdminProxyCall: 408, 429, 500, 502, 503, 504 *)
-Definition proxy_retry_statuses : list Z := [408; 429; 500; 502; 503; 504].
+Definition proxy_retry_statuses : list Z := ap_retry_statuses.
 
 Inductive meth := MGet | MPost.
 
